@@ -7,7 +7,8 @@
 // as  uid:difficulty:age:hash   (hash = FNV-1a over output and inputs).
 //
 // D <n> <perc|-> <gap|-> <seed> <op>...
-//     op = hi:<run> | di:<run> | ds:<gen> | dc:<run> | ev:<seed>:<mod>:<t|v|b>
+//     n  = <rows>  |  <rows>/<classes>/<m|s>   (classification dataset, see dataset_text)
+//     op = hi:<run> | di:<run> | ds:<gen> | dc:<run> | ev:<seed>:<mod>:<t|v|b> | sz:<target>
 //   -> OK I <T> <V> # <op> <ret> <clrT> <clrV> <draws> <T> <V> # ...
 // S <h|d|a> <n> <perc|-> <gap|-> <seed> <runs> <gens> [<cache bits, 0 = no cache>]
 //   -> OK I <T> <V> # G <run> <gen> <draws> <T> <V> [F<0|1>] # C <t|v> <clrT> <clrV> <draws> <T> <V> ...
@@ -126,14 +127,37 @@ std::string dump(const dataframe &d)
   return out;
 }
 
-std::string dataset_text(unsigned n)
+// dataset spec:  <n>  (regression)  |  <n>/<k>/<m|s>  (classification with k classes:
+//   m: class = uid % k;  s: classes 0..k-2 are singletons (uid = class), the others are class k-1)
+struct dspec { unsigned n = 0, k = 0; char pat = 'm'; };
+
+dspec parse_dspec(const std::string &t)
 {
-  // y, x1, x2, uid: payloads are a fixed function of the uid
+  dspec d;
+  std::istringstream ss(t);
+  std::string a;
+  std::getline(ss, a, '/');
+  d.n = static_cast<unsigned>(std::stoul(a));
+  if (std::getline(ss, a, '/')) d.k = static_cast<unsigned>(std::stoul(a));
+  if (std::getline(ss, a, '/') && !a.empty()) d.pat = a[0];
+  return d;
+}
+
+std::string dataset_text(const dspec &d)
+{
+  // y (or class label), x1, x2, uid: payloads are a fixed function of the uid
   std::ostringstream ss;
-  for (unsigned i(0); i < n; ++i)
+  for (unsigned i(0); i < d.n; ++i)
   {
     const double x1((i * 37 % 101) / 7.0 - 5.0), x2((i * 53 % 89) / 3.0);
-    ss << (x1 * 2.0 + x2 - 1.5) << ',' << x1 << ',' << x2 << ',' << i << '\n';
+    if (d.k >= 2)
+    {
+      const unsigned c(d.pat == 's' ? std::min(i, d.k - 1) : i % d.k);
+      ss << "c" << c;
+    }
+    else
+      ss << (x1 * 2.0 + x2 - 1.5);
+    ss << ',' << x1 << ',' << x2 << ',' << i << '\n';
   }
   return ss.str();
 }
@@ -157,8 +181,9 @@ unsigned uns(const std::string &s) { return static_cast<unsigned>(std::stoul(s))
 
 std::string mode_direct(const std::vector<std::string> &w)
 {
-  const unsigned n(uns(w[1]));
-  std::istringstream iss(dataset_text(n));
+  const dspec dsp(parse_dspec(w[1]));
+  const unsigned n(dsp.n);
+  std::istringstream iss(dataset_text(dsp));
   src_problem p(iss);
   if (w[2] != "-") p.env.validation_percentage = uns(w[2]);
   if (w[3] != "-") p.env.dss = uns(w[3]);
@@ -197,6 +222,23 @@ std::string mode_direct(const std::vector<std::string> &w)
       if (a[2] == "v" || a[2] == "b")
         for (auto &e : va)
           e.difficulty += mix(static_cast<std::uint64_t>(std::get<D_DOUBLE>(e.input.back())), seed + 1) % mod;
+    }
+    else if (kind == "sz")
+    {
+      // difficulty profile whose weights (difficulty + age^3 after the age increment of the next shake,
+      // uintmax_t arithmetic) sum to <target> modulo 2^64: two examples weigh 2^63 (+ target), the others 0
+      const std::uint64_t target(std::stoull(a[0]));
+      std::size_t j(0);
+      auto set([&](dataframe::example &e)
+               {
+                 const unsigned na(e.age + 1);
+                 const std::uint64_t cube(static_cast<std::uint64_t>(na) * na * na);
+                 const std::uint64_t want(j == 0 ? (1ull << 63) + target : j == 1 ? (1ull << 63) : 0);
+                 e.difficulty = want - cube;
+                 ++j;
+               });
+      for (auto &e : va) set(e);
+      for (auto &e : tr) set(e);
     }
     else return "BADOP " + o;
     out += " # " + o + " " + ret + " " + std::to_string(ct.clears) + " " + std::to_string(cv.clears) + " "
@@ -294,8 +336,9 @@ struct spy_proxy final : evaluator_proxy<i_mep, counting_rmae>
 
 std::string mode_search(const std::vector<std::string> &w)
 {
-  const unsigned n(uns(w[2]));
-  std::istringstream iss(dataset_text(n));
+  const dspec dsp(parse_dspec(w[2]));
+  const unsigned n(dsp.n);
+  std::istringstream iss(dataset_text(dsp));
   src_problem p(iss);
   p.insert<real::add>();
   p.insert<real::sub>();
@@ -317,6 +360,9 @@ std::string mode_search(const std::vector<std::string> &w)
   L.out = "OK I " + dump(*L.tr) + " " + dump(*L.va);
 
   src_search<i_mep, std_es> s(p);
+  // regression evaluators also on classification datasets (labels are read as numbers): the stock
+  // classification evaluators index a per-class table sized by dataframe::classes(), which is 0 for the
+  // validation dataframe (examples arrive there by push_back only) -- outside this property
   s.template training_evaluator<spy_eval<rmae_evaluator<i_mep>>>(*L.tr, 't');
   s.template validation_evaluator<spy_eval<rmae_evaluator<i_mep>>>(*L.va, 'v');
   const unsigned cache_bits(w.size() > 8 ? uns(w[8]) : 0);
